@@ -383,32 +383,47 @@ func c04InputGoroutine(c *Ctx, info *types.Info) {
 		c.undecided("C04.b", "vaxis.(*Vaxis).openTty", 0, "openTty not found")
 		return
 	}
-	var lit *ast.FuncLit
+	// the input goroutine: `go func(){...}()` or `go vx.loop(...)` in openTty
+	var lit ast.Node
+	var litBody *ast.BlockStmt
 	ast.Inspect(fi.Decl.Body, func(n ast.Node) bool {
-		if gs, ok := n.(*ast.GoStmt); ok {
-			if l, ok := gs.Call.Fun.(*ast.FuncLit); ok && lit == nil {
-				lit = l
+		if gs, ok := n.(*ast.GoStmt); ok && lit == nil {
+			switch f := unparen(gs.Call.Fun).(type) {
+			case *ast.FuncLit:
+				lit, litBody = f, f.Body
+			default:
+				if cf := c.P.FuncOfObj(calleeOf(info, gs.Call)); cf != nil && cf.Decl.Body != nil {
+					lit, litBody = cf.Decl, cf.Decl.Body
+				}
 			}
 		}
 		return true
 	})
 	if lit == nil {
-		c.undecided("C04.b", fi.Name+"/input goroutine", fi.Decl.Pos(), "no `go func(){...}()` found in openTty")
+		c.undecided("C04.b", fi.Name+"/input goroutine", fi.Decl.Pos(), "no `go func(){...}()` or `go <method>()` found in openTty")
 		return
 	}
 	name := fi.Name + "$input"
 	// deferred recover handler calls Close before re-panicking
 	okDefer := false
-	for _, s := range lit.Body.List {
+	for _, s := range litBody.List {
 		ds, ok := s.(*ast.DeferStmt)
 		if !ok {
 			continue
 		}
-		dl, ok := ds.Call.Fun.(*ast.FuncLit)
-		if !ok {
+		var dg *FG
+		var dlBody *ast.BlockStmt
+		switch f := unparen(ds.Call.Fun).(type) {
+		case *ast.FuncLit:
+			dg, dlBody = c.P.GraphOfLit(fi.Pkg, name+"$recover", f), f.Body
+		default:
+			if cf := c.P.FuncOfObj(calleeOf(info, ds.Call)); cf != nil && cf.Decl.Body != nil {
+				dg, dlBody = c.P.Graph(cf), cf.Decl.Body
+			}
+		}
+		if dg == nil {
 			continue
 		}
-		dg := c.P.GraphOfLit(fi.Pkg, name+"$recover", dl)
 		closeCalls := dg.Calls(func(fn *types.Func, _ *ast.CallExpr) bool { return fn != nil && repoName(fn) == "vaxis.Vaxis.Close" })
 		panics := dg.Find(func(n ast.Node) bool {
 			call, ok := n.(*ast.CallExpr)
@@ -418,7 +433,7 @@ func c04InputGoroutine(c *Ctx, info *types.Info) {
 			id, ok := call.Fun.(*ast.Ident)
 			return ok && id.Name == "panic"
 		})
-		hasRecover := containsNode(dl.Body, func(n ast.Node) bool {
+		hasRecover := containsNode(dlBody, func(n ast.Node) bool {
 			call, ok := n.(*ast.CallExpr)
 			if !ok {
 				return false
@@ -439,9 +454,8 @@ func c04InputGoroutine(c *Ctx, info *types.Info) {
 	c.check(okDefer, "C04.b", name+"/panic handler restores the terminal before re-panicking", lit.Pos(),
 		"deferred recover() calls Close before panic", "a panic in the input goroutine no longer restores the terminal (no deferred recover→Close before the re-panic)")
 	// the kill-signal arm calls Close
-	g := c.P.GraphOfLit(fi.Pkg, name, lit)
 	okSig := false
-	ast.Inspect(lit.Body, func(n ast.Node) bool {
+	ast.Inspect(litBody, func(n ast.Node) bool {
 		cc, ok := n.(*ast.CommClause)
 		if !ok || cc.Comm == nil {
 			return true
@@ -462,7 +476,6 @@ func c04InputGoroutine(c *Ctx, info *types.Info) {
 		}
 		return true
 	})
-	_ = g
 	c.check(okSig, "C04.b", name+"/kill-signal arm calls Close", lit.Pos(), "termination signal restores the terminal", "the chSigKill arm of the input loop does not call Close")
 }
 
